@@ -3,8 +3,10 @@ package main
 import (
 	"errors"
 	"fmt"
+	"github.com/nspcc-dev/neofs-sdk-go/object"
 	"os"
 	"path/filepath"
+	"strings"
 
 	"github.com/nspcc-dev/neofs-node/pkg/local_object_storage/engine"
 	"github.com/nspcc-dev/neofs-node/pkg/local_object_storage/shard"
@@ -45,6 +47,11 @@ func (s srcFake) Get(cid.ID) (container.Container, error) {
 	}
 	return container.Container{}, nil
 }
+
+// srcFakeN answers per container (containers numCID(20+i)); anything else is "found".
+type srcFakeN struct{ answers map[cid.ID]string }
+
+func (s srcFakeN) Get(id cid.ID) (container.Container, error) { return srcFake{s.answers[id]}.Get(id) }
 
 func graceEngine(c *runCtx) error {
 	dir := scratchDir("grace")
@@ -113,6 +120,37 @@ func graceEngine(c *runCtx) error {
 				c.oracle("discard-only-when-definitely-absent", discarded == (o.kv["src"] == "notfound"),
 					fmt.Sprintf("container source answer %q: discarded=%v", o.kv["src"], discarded))
 				c.nontrivial(line)
+			case "startupn":
+				// several containers on ONE shard, each with its own answer of the container source: the decision about a
+				// container depends on its own answer only (the cleanup walks the shard's containers in id order)
+				nEng++
+				edir := filepath.Join(dir, fmt.Sprintf("e%d", nEng))
+				srcs := strings.Split(o.kv["srcs"], ",")
+				e1, _ := newEngine(edir, 1, shardCfg{})
+				ans := map[cid.ID]string{}
+				var objs []*object.Object
+				for i, a := range srcs {
+					obj := mkObject(20+i, 1, detPayload(8, i))
+					if err := e1.Put(c.ctx(), obj, nil); err != nil {
+						panic(err)
+					}
+					objs = append(objs, obj)
+					ans[obj.GetContainerID()] = a
+				}
+				e1.Close()
+				e2, _ := newEngine(edir, 1, shardCfg{}, engine.WithContainersSource(srcFakeN{ans}))
+				var got []string
+				okAll := true
+				for i, obj := range objs {
+					_, err := e2.Get(c.ctx(), obj.Address())
+					got = append(got, fmt.Sprint(err != nil))
+					okAll = okAll && (err != nil) == (srcs[i] == "notfound")
+				}
+				e2.Close()
+				os.RemoveAll(edir)
+				c.emit(line, "=> ok discarded="+strings.Join(got, ","))
+				c.oracle("discard-only-when-definitely-absent", okAll, fmt.Sprintf("container source answers %v: discarded=%v", srcs, got))
+				c.nontrivial(line)
 			default:
 				c.emit(line, "=> bad-op")
 			}
@@ -154,6 +192,16 @@ func graceEngine(c *runCtx) error {
 	}
 	for _, s := range []string{"found", "notfound", "transient"} {
 		ops = append(ops, "grace startup src="+s)
+	}
+	// every combination of answers for three containers of one shard
+	ans := []string{"found", "notfound", "transient"}
+	for _, a := range ans {
+		for _, b := range ans {
+			ops = append(ops, "grace startupn srcs="+a+","+b)
+			for _, d := range ans {
+				ops = append(ops, "grace startupn srcs="+a+","+b+","+d)
+			}
+		}
 	}
 	exec(ops)
 	return nil
